@@ -98,6 +98,14 @@ func (w *Worker) exec(fr *frame, ins ssa.Instruction) {
 			return
 		}
 		fn, args := w.prepareCall(fr, &ins.Call)
+		if fn.fn != nil {
+			for _, name := range w.job.CoroutineFuncs {
+				if fn.fn.Name() == name {
+					w.spawn(fn, args, ins)
+					return
+				}
+			}
+		}
 		if w.job.GoInline {
 			w.call(fn, args, ins)
 			return
